@@ -684,3 +684,22 @@ V("Cone: opening term with the wrong sign", "C13", CURVE, "            m[2:, 2:]
 V("Cone: constant term linear in the height of the vertex", "C13", CURVE, "v[2] ** 2 * c)", "v[2] * c)", "E19", "Cone.__init__")
 V("Cone: the cylinder keeps the vertex at infinity as its centre", "C13", CURVE, "            v = base_center.normalized_array\n", "            v = vertex.normalized_array\n", "E19", "Cone.__init__")
 V("twin: Cone with the opening applied entry by entry", "C13", CURVE, "            m[2:, 2:] *= -c", "            m[2, 2] *= -c\n            m[2, 3] *= -c\n            m[3, 2] *= -c", "silent")
+
+
+# ------------------------------------------------------------------------------------------------ conics through points, degenerate quadrics, the pencil (E19.pts, E19.deg)
+V("from_points: one determinant weight taken with the wrong point", "C13", CURVE, "        bde = det([b, d, e])\n", "        bde = det([b, c, e])\n", "E19.pts", "Conic.from_points")
+V("from_points: cross products pair the points the other way", "C13", CURVE, "outer(np.cross(a, c), np.cross(b, d))", "outer(np.cross(a, b), np.cross(c, d))", "E19.pts", "Conic.from_points")
+V("from_points: matrix not symmetrised", "C13", CURVE, "        return Conic(np.real_if_close(m + m.T), normalize_matrix=True)", "        return Conic(np.real_if_close(m), normalize_matrix=True)", "E19.pts", "Conic.from_points")
+V("twin: from_points with the symmetrisation in a local", "C13", CURVE, "        return Conic(np.real_if_close(m + m.T), normalize_matrix=True)", "        sym = m.T + m\n        return Conic(np.real_if_close(sym), normalize_matrix=True)", "silent")
+V("from_crossratio: second pair of joins exchanged", "C13", CURVE, "        matrix = outer(ac, bd) - cr * outer(ad, bc)", "        matrix = outer(ac, bc) - cr * outer(ad, bd)", "E19.pts", "Conic.from_crossratio")
+V("from_crossratio: a row of the adjugate instead of a column", "C13", CURVE, "        ac = adjugate([np.ones(3), a.array, c.array])[:, 0]", "        ac = adjugate([np.ones(3), a.array, c.array])[0, :]", "E19.pts", "Conic.from_crossratio")
+V("from_lines: antisymmetrised", "C15", CURVE, "        m = outer(g.array, h.array)\n        m += m.T", "        m = outer(g.array, h.array)\n        m -= m.T", "E19.deg", "Conic.from_lines", quick=True)
+V("from_planes: not symmetrised", "C15", CURVE, "        m = outer(e.array, f.array)\n        m += m.T\n", "        m = outer(e.array, f.array)\n", "E19.deg", "QuadricTensor.from_planes")
+V("from_lines: one line used twice", "C15", CURVE, "        m = outer(g.array, h.array)\n        m += m.T", "        m = outer(g.array, g.array)\n        m += m.T", "E19.deg", "Conic.from_lines")
+V("twin: from_lines as the sum of the two outer products", "C15", CURVE, "        m = outer(g.array, h.array)\n        m += m.T", "        m = outer(g.array, h.array) + outer(h.array, g.array)", "silent")
+V("pencil: the root multiplies the other conic", "C15", CURVE, "                c = Conic(sol[0] * self.array + other.array, is_dual=self.is_dual, copy=False)", "                c = Conic(self.array + sol[0] * other.array, is_dual=self.is_dual, copy=False)",
+  "E19.deg", "Conic.intersect")
+V("pencil: the two middle coefficients exchanged", "C15", CURVE, "                sol = roots([alpha, beta, gamma, delta])", "                sol = roots([alpha, gamma, beta, delta])", "E19.deg", "Conic.intersect")
+V("pencil: a mixed determinant with a repeated row", "C15", CURVE, "                beta = det([a1, a2, b3]) + det([a1, b2, a3]) + det([b1, a2, a3])", "                beta = det([a1, a2, b3]) + det([a1, b2, a3]) + det([b1, a2, a2])", "E19.deg", "Conic.intersect")
+V("twin: the pencil parametrised from the other end", "C15", CURVE, "                sol = roots([alpha, beta, gamma, delta])\n\n                c = Conic(sol[0] * self.array + other.array, is_dual=self.is_dual, copy=False)",
+  "                sol = roots([delta, gamma, beta, alpha])\n\n                c = Conic(self.array + sol[0] * other.array, is_dual=self.is_dual, copy=False)", "silent")
